@@ -5,8 +5,8 @@ Enq(e) == [k |-> "enq", e |-> e]
 K(k) == [k |-> k, e |-> 0]
 Producer(e) == {<<Enq(e)>>, <<K("dqn_on"), Enq(e), K("dqn_off")>>}
 Consumer == {<<K("process")>>, <<K("processOne"), K("processOne")>>, <<K("take"), K("process")>>, <<K("clear")>>,
-             <<K("processIf"), K("process")>>, <<K("peek"), K("take")>>}
-Waiter == {<<K("wait"), K("process")>>}
+             <<K("processIf"), K("process")>>, <<K("peek"), K("take")>>, <<K("processUntil"), K("process")>>}
+Waiter == {<<K("wait"), K("process")>>, <<K("waitFor"), K("process")>>}
 Observer == {<<K("empty")>>, <<K("empty"), K("empty")>>}
 P1 == Producer(1) \cup {<<Enq(1), K("process")>>, <<Enq(1), Enq(2), K("processOne")>>, <<Enq(1), Enq(2)>>, <<K("dqn_on"), Enq(1), Enq(2), K("dqn_off")>>}
 Any2 == Consumer \cup Waiter \cup Observer \cup Producer(3)
@@ -18,5 +18,8 @@ W2 == {[t \in Threads |-> IF t = 1 THEN a ELSE b] : a \in {<<K("dqn_on"), Enq(1)
 \* single named scenarios (the harness replays counterexamples of these: model thread t = harness thread t-1)
 SDqnWaiter == {[t \in Threads |-> IF t = 1 THEN <<K("dqn_on"), Enq(1), K("dqn_off")>> ELSE <<K("wait"), K("process")>>]}
 SEmptyOrder == {[t \in Threads |-> IF t = 1 THEN <<Enq(1), K("process")>> ELSE IF t = 2 THEN <<K("empty")>> ELSE <<>>]}
+\* waitFor against everything that can make the queue look empty while events are in flight (C11's second clause)
+WF3 == {[t \in Threads |-> IF t = 1 THEN a ELSE IF t = 2 THEN <<K("waitFor")>> ELSE c] : a \in P1, c \in Consumer}
+WF2 == {[t \in Threads |-> IF t = 1 THEN a ELSE <<K("waitFor")>>] : a \in P1 \cup {<<Enq(1), K("take")>>, <<Enq(1), Enq(2), K("processUntil"), K("clear")>>}}
 SPutBack == {[t \in Threads |-> IF t = 1 THEN <<Enq(2), Enq(3)>> ELSE <<K("processIf"), K("process")>>]}
 ====
